@@ -1611,7 +1611,98 @@ fn cfg_oneshot(rng: &mut Rng) -> Cfg {
 
 // ================================================================ T-state (shared: publishers and followers with handle churn)
 
+/// drops `handle` right after the first poll of `fut` that returns Pending
+struct DropHandleAfterFirstPending<F, H> {
+    fut: F,
+    handle: Option<H>,
+}
+impl<F: Future, H> Future for DropHandleAfterFirstPending<F, H> {
+    type Output = F::Output;
+    fn poll(self: Pin<&mut Self>, cx: &mut Context<'_>) -> Poll<F::Output> {
+        // Safety: structural pinning of `fut`; `handle` is never pinned
+        let this = unsafe { self.get_unchecked_mut() };
+        let r = unsafe { Pin::new_unchecked(&mut this.fut) }.poll(cx);
+        if r.is_pending() {
+            if let Some(h) = this.handle.take() {
+                super::count("handle_dropped_under_pending_future");
+                drop(h);
+            }
+        }
+        r
+    }
+}
+
+/// "orphan" executions: a receive future outlives the handle it was made from. The follower has
+/// seen the latest state, parks on something newer and then drops its handle — the last receiver
+/// handle — while another thread drops the last sender handle. Whatever order the two drops take,
+/// the channel ends up closed and the parked future is woken and yields None; a future that is
+/// never woken is a deadlock (seeded change UA13: each side skips the close when the other side's
+/// count is already zero, so two concurrent last drops close nothing).
+fn t_state_orphan(cfg: &Cfg) {
+    let pubs = cfg_get(cfg, "pubs", 3) as u64;
+    let (tx, rx) = sh::generic_state_broadcast_channel::<M, u64>();
+    let obs = tx.verif_observer();
+    for k in 1..=pubs {
+        if tx.send(k).is_err() {
+            violation("C11", "closed-while-handles-alive", "send failed although sender and receiver handles are alive".into());
+        }
+    }
+    let follower = thread::spawn(move || {
+        let mut id = StateId::new();
+        match rx.try_receive(id) {
+            Some((nid, v)) => {
+                if v != pubs {
+                    violation("C13", "not-latest-state", format!("try_receive yields state {} but the last published state is {}", v, pubs));
+                }
+                id = nid;
+            }
+            None => {
+                if pubs > 0 {
+                    violation("C13", "latest-not-delivered", "try_receive(StateId::new()) yields nothing although states were published".into());
+                }
+            }
+        }
+        let extra = if draw(3) == 0 { Some(rx.clone()) } else { None };
+        let fut = rx.receive(id);
+        drop(extra);
+        if let Some((_, v)) = block_on(FusedCheck { fut: DropHandleAfterFirstPendingFused(DropHandleAfterFirstPending { fut, handle: Some(rx) }) }) {
+            violation("C13", "nothing-newer", format!("a receive for something newer than the latest state completed with state {} although nothing was sent", v));
+        }
+    });
+    let closer = thread::spawn(move || {
+        if draw(2) == 0 {
+            thread::yield_now();
+        }
+        let extra = if draw(3) == 0 { Some(tx.clone()) } else { None };
+        drop(tx);
+        drop(extra);
+    });
+    follower.join().unwrap();
+    closer.join().unwrap();
+    let snap = obs.verif_snapshot(&mut |_| false);
+    if snap.scalar("senders") != Some(0) || snap.scalar("receivers") != Some(0) {
+        violation("C11", "handle-count", format!("every handle was dropped but the channel counts {:?} sender(s) / {:?} receiver(s)", snap.scalar("senders"), snap.scalar("receivers")));
+    }
+    queues_must_be_empty("state broadcast channel", snap);
+}
+
+struct DropHandleAfterFirstPendingFused<F, H>(DropHandleAfterFirstPending<F, H>);
+impl<F: Future + futures_core::future::FusedFuture, H> Future for DropHandleAfterFirstPendingFused<F, H> {
+    type Output = F::Output;
+    fn poll(self: Pin<&mut Self>, cx: &mut Context<'_>) -> Poll<F::Output> {
+        unsafe { self.map_unchecked_mut(|s| &mut s.0) }.poll(cx)
+    }
+}
+impl<F: Future + futures_core::future::FusedFuture, H> futures_core::future::FusedFuture for DropHandleAfterFirstPendingFused<F, H> {
+    fn is_terminated(&self) -> bool {
+        self.0.fut.is_terminated()
+    }
+}
+
 fn t_state(cfg: &Cfg) {
+    if cfg_get(cfg, "orphan", 0) != 0 {
+        return t_state_orphan(cfg);
+    }
     let n = cfg_get(cfg, "threads", 2) as usize;
     let pubs = cfg_get(cfg, "pubs", 3) as u64;
     let p_budget = cfg_get(cfg, "p_budget", 0) as u64;
@@ -1705,6 +1796,7 @@ fn cfg_state(rng: &mut Rng) -> Cfg {
     base_cfg(rng, &mut c);
     c.insert("pubs".into(), rng.range(0, 3));
     c.insert("converge".into(), rng.pct(50) as i64);
+    c.insert("orphan".into(), rng.pct(20) as i64);
     c
 }
 
